@@ -71,8 +71,13 @@ type jarCookie struct {
 	Path    string `json:"path"`
 	Value   string `json:"value"`
 	ExpKind int    `json:"exp_kind"`
-	ExpRel  int    `json:"exp_rel_s"`        // seconds relative to the instant of the write
-	Delete  string `json:"delete,omitempty"` // "max-age-0" | "past-expires" (responses only)
+	ExpRel  int    `json:"exp_rel_s"` // seconds relative to the instant of the write
+	// AlsoExpires != 0 (responses with Max-Age only): the Set-Cookie additionally carries an Expires
+	// attribute AlsoExpires seconds from now (negative = past) that contradicts or agrees with
+	// Max-Age. RFC 6265 5.3: Max-Age has precedence, so the specification ignores it.
+	AlsoExpires int    `json:"also_expires_rel_s,omitempty"`
+	MaxAgeFirst bool   `json:"max_age_before_expires,omitempty"`
+	Delete      string `json:"delete,omitempty"` // "max-age-0" | "past-expires" (responses only)
 }
 
 type jarOp struct {
@@ -323,6 +328,9 @@ func (s *jarSpec) judge(now time.Time, host, path string, got []retCookie, wire 
 			// the reversed prefix test alone explains this one, whatever else is true of the cookie
 			out = append(out, jarFinding{"jar|path-prefix-reversed", fmt.Sprintf("cookie with path %q withheld for request path %q", w.ck.Path, path), retCookie{w.ck.Name, w.ck.Value, w.ck.Path}})
 			continue
+		case w.ck.AlsoExpires < 0 && w.ck.ExpKind == expMaxAge:
+			// Set-Cookie with a past Expires and a positive Max-Age: Max-Age decides, the cookie lives
+			cls = "max-age-overridden-by-expires"
 		case isV6(host) && hostHasPort(w.host) != hostHasPort(host):
 			// "[::1]:80" and "[::1]" are the same host
 			cls = "host-with-port|ipv6-literal"
@@ -439,6 +447,11 @@ func genJarCookie(r *gen.Rand, viaResponse bool, pathless bool, reqPath string) 
 	if viaResponse && r.Chance(1, 5) {
 		ck.ExpKind, ck.ExpRel = expNone, 0
 		ck.Delete = gen.Pick(r, []string{"max-age-0", "past-expires"})
+	}
+	if viaResponse && (ck.ExpKind == expMaxAge || ck.Delete == "max-age-0") && r.Chance(1, 2) {
+		// both attributes, all four combinations (Expires past / future x Max-Age <= 0 / > 0)
+		ck.AlsoExpires = gen.Pick(r, []int{-3, -1, 2, 6})
+		ck.MaxAgeFirst = r.Bool()
 	}
 	return ck
 }
@@ -601,9 +614,14 @@ func (je *jarEngine) runHistory(c *ev.Case, reuse bool, ops []jarOp) {
 				if ck.Path != "" {
 					line += "; Path=" + ck.Path
 				}
+				also := ""
+				if ck.AlsoExpires != 0 {
+					also = "; Expires=" + httpDate(now().Truncate(time.Second).Add(time.Duration(ck.AlsoExpires)*time.Second))
+				}
+				maxAge := ""
 				switch {
 				case ck.Delete == "max-age-0":
-					line += "; Max-Age=0"
+					maxAge = "; Max-Age=0"
 				case ck.Delete == "past-expires":
 					line += "; Expires=" + httpDate(time.Now().Add(-3*time.Second))
 				case ck.ExpKind == expExpires:
@@ -611,7 +629,12 @@ func (je *jarEngine) runHistory(c *ev.Case, reuse bool, ops []jarOp) {
 					line += "; Expires=" + httpDate(w.expAt)
 				case ck.ExpKind == expMaxAge:
 					w.expAt = now().Add(time.Duration(ck.ExpRel) * time.Second)
-					line += "; Max-Age=" + strconv.Itoa(ck.ExpRel)
+					maxAge = "; Max-Age=" + strconv.Itoa(ck.ExpRel)
+				}
+				if ck.MaxAgeFirst {
+					line += maxAge + also
+				} else {
+					line += also + maxAge
 				}
 				lines = append(lines, line)
 				ws = append(ws, w)
